@@ -110,6 +110,10 @@ def special_specs(tier):
                           txs=[dict(req="write_register", unit=0, script=[("nothing", {})]),
                                dict(req="write_register", unit=0, script=[("oserror", {"on_send": True})]),
                                dict(req="write_register", unit=0, script=[("nothing", {})]),
+                               # only unit 0 is the broadcast address: 0xFF (the non-significant unit id of Modbus/TCP)
+                               # and every other unit are answered and must be read, broadcast_enable or not
+                               dict(req="read_holding", unit=255, script=[("full", {})]),
+                               dict(req="write_register", unit=1, script=[("full", {})]),
                                dict(req="read_holding", unit=5, script=[])]))
         # the (re)connect is refused
         specs.append(dict(kind=kind, retries=1, roe=True, roi=True, tid0=3,
